@@ -12,6 +12,7 @@ from vfw import streams
 
 BOUNDS = ("catalogue U_Q/U_T values as C01; codec in {BER(defMode, chunk symbolic), CER, DER}; tail of 0..3 unconstrained symbolic octets "
           "(so 00 00, another tag, garbage are all covered); streaming: 2-3 concatenated encodings, position checked after each object")
+ASSUMPTIONS = ["stream_objects_ns: io.DEFAULT_BUFFER_SIZE as seen by pyasn1.codec.streaming is replaced by 8 during the harness (environment constant), in symbolic exploration and replay alike"]
 OUTSIDE = "tails longer than 3 octets; more than 3 concatenated encodings"
 
 
@@ -71,12 +72,107 @@ def stream_positions(sid, codec, defMode, chunk, cnt, **slots):
     return None
 
 
-OBLIGATIONS = []
+def tail_long(shape, li, x, defMode, ck, tlen, t0, t1):
+    """Payloads whose length octets sit on the 127/128, 255/256 boundaries (four shapes, see C01.rt_long) followed by a tail."""
+    from props import C01
+    from vfw.schema import T
+
+    n = C01.LONG[li]
+    body = bytes([x]) + bytes([(i * 7 + 3) % 251 for i in range(n - 1)])
+    if shape == 0:
+        t, av = T("OCTS"), body
+    elif shape == 1:
+        t, av = T("STR:IA5").tagged(("E", "C", 2)), bytes(b % 128 for b in body)
+    elif shape == 2:
+        t, av = T("SEQ", comps=[("p", T("OCTS"), "req", None), ("q", T("INT"), "opt", None)]), {"p": body[:n - 4] if n > 4 else body, "q": 5}
+    else:
+        t, av = T("SEQOF", elem=T("OCTS").tagged(("I", "C", 0))), [body[: n // 2 - 2], body[n // 2:]]
+    enc = ber_encoder.encode(build(t, av), defMode=defMode, maxChunkSize=(0, 100)[ck])
+    tl = bytes([t0, t1][:tlen])
+    w, rest = ber_decoder.decode(substrate(enc + tl), asn1Spec=mk_type(t))
+    if not same(t, absval(t, w), av):
+        return "value of the first encoding is wrong"
+    if bytes(rest) != tl if not streams.SYMBOLIC else rest != tl:
+        return "trailing octets not returned unchanged"
+    return None
+
+
+class _IoShim(object):
+    DEFAULT_BUFFER_SIZE = 8
+
+    def __getattr__(self, name):
+        import io
+
+        return getattr(io, name)
+
+
+class _Raw(object):
+    """Non-seekable blocking raw stream."""
+
+    def __init__(self, data):
+        self._d, self._p = data, 0
+
+    def seekable(self):
+        return False
+
+    def read(self, n=-1):
+        if n is None or n < 0:
+            n = len(self._d) - self._p
+        r = self._d[self._p:self._p + n]
+        self._p += len(r)
+        return r
+
+
+def stream_objects_ns(sid, codec, defMode, chunk, cnt, **slots):
+    """cnt encodings back to back on a NON-seekable stream (real CachingStreamWrapper, cache-drop threshold scaled to 8 octets):
+    exactly one object per encoding, each equal to the value, nothing lost between items when the cache is dropped."""
+    from pyasn1 import error
+    from pyasn1.codec import streaming as pstreaming
+
+    e1 = by_id(sid)
+    if e1.has("constructed") and not (codec == 1 or (codec == 0 and not defMode)):
+        raise Skip()  # definite-length containers beyond the (scaled) buffer on a non-seekable stream: known finding F-cache-renumber of C11
+    if codec == 0 and defMode and chunk:
+        raise Skip()  # definite-length *constructed* strings are containers too (same known finding)
+    av1 = e1.mk(**slots)
+    enc1 = _encode(codec, build(e1.t, av1), defMode, chunk)
+    data = b"".join([enc1] * cnt)
+    saved = pstreaming.io
+    pstreaming.io = _IoShim()
+    try:
+        count = 0
+        for obj in _decoder(codec).StreamingDecoder(_Raw(data), asn1Spec=mk_type(e1.t)):
+            if isinstance(obj, error.SubstrateUnderrunError):
+                return "underrun on complete data"
+            count += 1
+            if count > cnt:
+                return "too many objects"
+            if not same(e1.t, absval(e1.t, obj), av1):
+                return "object %d differs" % count
+        if count != cnt:
+            return "yielded %d objects for %d encodings" % (count, cnt)
+    finally:
+        pstreaming.io = saved
+    return None
+
+
+OBLIGATIONS = [Obl("tail_long", tail_long, {"shape": I(0, 3), "li": I(0, 6), "x": I(0, 127), "defMode": B, "ck": I(0, 1), "tlen": I(0, 2), "t0": BYTE, "t1": BYTE},
+                   shards=[{"shape": C(s_), "li": C(l_)} for s_ in range(4) for l_ in range(7)], budget=150, per_path=100,
+                   doc="payload lengths 126..129, 255..257 in four shapes followed by 0..2 unconstrained octets")]
 TAILP = {"codec": I(0, 2), "defMode": B, "chunk": I(0, 2 ** 31 - 1), "tlen": I(0, 3), "t0": BYTE, "t1": BYTE, "t2": BYTE}
 for e in all_entries():
     OBLIGATIONS.append(entry_obl("tail", tail, e, extra=TAILP, budget=90, narrow=True, extra_shards=[{"codec": C(c)} for c in range(3)]))
 for e in select("thorough", "leaf", "univ") + select("thorough", "constructed"):
     if e.id in ("int", "octs", "bool", "seq", "seqof_int", "choice", "set", "bits", "utf8", "int.E", "octs.E", "seq.E"):
+        if e.id in ("int", "octs", "bool", "bits", "seq", "seqof_int", "utf8"):
+            # (an untagged CHOICE measures its definite-length alternative across the cache drop: same known finding, left out)
+            _leaf = e.has("leaf")
+            OBLIGATIONS.append(entry_obl("stream_objects_ns", stream_objects_ns, e,
+                                         budget=150, narrow=True,
+                                         extra={"codec": I(0, 2), "defMode": B, "chunk": I(0, 1), "cnt": I(2, 3) if _leaf else C(2), **({"n": I(0, 2)} if "n" in e.params else {}),
+                                                **dict((k_, C(65 + i_)) for i_, k_ in enumerate(("o0", "o1", "o2", "o3", "c0", "c1")) if k_ in e.params)},  # the wrapper's cache is a real io.BytesIO: contents concrete
+                                         extra_shards=[{"codec": C(c)} for c in range(3)],
+                                         tiers=("quick", "thorough") if e.id in ("int", "octs", "bool", "seqof_int") else ("thorough",)))
         OBLIGATIONS.append(entry_obl("stream_positions", stream_positions, e,
                                      extra={"codec": I(0, 2), "defMode": B, "chunk": I(0, 3), "cnt": I(1, 3)}, budget=90, narrow=True,
                                      extra_shards=[{"codec": C(c)} for c in range(3)]))
